@@ -21,6 +21,7 @@ func init() {
 			"(R5) the result of every edit made with request-chosen indices is propagated to the reply. " +
 			"Does not decide: the multiset equality of secondaries per cycle end to end (runtime values).",
 		RuleDocs: []string{
+			"C09.R7 per-request-value analysis of the coupling handler (conditional constant propagation, closures and function values followed): each direction of an (error, feedback) pair ends made or broken as the request value says",
 			"C09.R1 counter/set pairing on SSA: MapUpdate/delete/element-store on the sources table vs stores to the counter, control dependence on a Lookup of the same map and key",
 			"C09.R1w who may reset: call-graph reachability of the wholesale reset",
 			"C09.R2 guard dominance (E6) on inserted keys and table indices; disequality of the two endpoints",
